@@ -187,7 +187,16 @@ func scenario(t *testing.T, idx int64, r *rand.Rand) {
 			rec.OnEstimate = yield
 			enforce = &inject.YieldStrategy{Inner: sk.st, BeforeSetLimit: func(int) { yield() }}
 		}
-		dl, err := limiter.NewDefaultLimiter(rec, 1, 1, 0, windowSize, enforce, limit.NoopLimitLogger{}, core.EmptyMetricRegistryInstance)
+		// the logger is optional (nil = no logging): it changes nothing about what is enforced
+		var lg limit.Logger = limit.NoopLimitLogger{}
+		switch r.IntN(4) {
+		case 0:
+			lg = nil
+			rt.Count("limiters_built_without_a_logger", 1)
+		case 1:
+			lg = limgen.DebugLogger{}
+		}
+		dl, err := limiter.NewDefaultLimiter(rec, 1, 1, 0, windowSize, enforce, lg, core.EmptyMetricRegistryInstance)
 		if err != nil {
 			panic(err)
 		}
@@ -561,8 +570,37 @@ func decimalShares(idx int64, r *rand.Rand) {
 			}
 		}
 	}
+	// a predicate partition that is taken out, misses a change of the total, and is put back (the very object the removal
+	// returned): its share is the share of the total now in force
+	for i := 0; i < 40; i++ {
+		numA, numB := 1+r.IntN(12), 1+r.IntN(12)
+		t1, t2 := 2+r.IntN(60), 2+r.IntN(60)
+		keyed := func(k string) func(context.Context) bool {
+			return func(ctx context.Context) bool { v, _ := ctx.Value(readdKey{}).(string); return v == k }
+		}
+		pa := strategy.NewPredicatePartitionWithMetricRegistry("a", float64(numA)/32, keyed("a"), core.EmptyMetricRegistryInstance)
+		pb := strategy.NewPredicatePartitionWithMetricRegistry("b", float64(numB)/32, keyed("b"), core.EmptyMetricRegistryInstance)
+		st, err := strategy.NewPredicatePartitionStrategyWithMetricRegistry([]*strategy.PredicatePartition{pa, pb}, int32(t1), core.EmptyMetricRegistryInstance)
+		if err != nil {
+			panic(err)
+		}
+		removed, _ := st.RemovePartitionsMatching(context.WithValue(context.Background(), readdKey{}, "b"))
+		st.SetLimit(t2)
+		if len(removed) != 1 || !st.AddPartition(removed[0]) {
+			panic("c05: re-add refused")
+		}
+		got, _ := st.BinLimit(1)
+		rt.Count("shares_of_partitions_put_back_after_a_limit_change", 1)
+		if got != share(t2, numB) {
+			rt.Violation("C05/predicate/partition-share-not-recomputed-from-estimate/partition-put-back-after-the-limit-changed", idx, rt.J{"fraction_of_32": numB,
+				"total_when_removed": t1, "total_now": t2, "share": got, "want": share(t2, numB)})
+			return
+		}
+	}
 	rt.Distinct(fmt.Sprintf("dec|%d", idx))
 }
+
+type readdKey struct{}
 
 func TestCheck(t *testing.T) {
 	rt.Cases(2000, 400000, func(idx int64) {
